@@ -159,6 +159,10 @@ fn filters(plan_targets: usize) -> impl Strategy<Value = Filters> {
             if !targets.is_empty() && extra == 1 {
                 targets.push("services/api/une-cible-qui-n-est-pas-dans-cette-exécution".to_string());
             }
+            // or only targets that are not part of this run: nothing of it is admitted
+            if !targets.is_empty() && extra == 3 {
+                targets = vec!["elsewhere/a-target-that-is-not-part-of-this-run".to_string()];
+            }
             if !targets.is_empty() && extra == 2 {
                 for i in 0..12 {
                     targets.push(format!("elsewhere/{}/a-target-with-a-rather-long-path-that-is-not-part-of-this-run-{:02}", "x".repeat(40), i));
